@@ -492,13 +492,13 @@ pub fn check(tier: Tier, seed: u64) -> PropReport {
         "faults are injected by wrappers around the bank module, the token-factory mock and the contract entry points; queries never fail".into(),
     ];
     let x = match tier {
-        Tier::Quick => 1200,
+        Tier::Quick => 4000,
         Tier::Thorough => 40_000,
     };
     let o = drive(&FaultWalk, "C20", tier, x, seed);
     rep.push(FaultWalk.name(), o);
     let fz = match tier {
-        Tier::Quick => 600,
+        Tier::Quick => 2000,
         Tier::Thorough => 20_000,
     };
     let o = drive(&FrozenRefund, "C20", tier, fz, seed);
@@ -506,7 +506,7 @@ pub fn check(tier: Tier, seed: u64) -> PropReport {
     rep.floor("twins where a refund failed while another farm's refund had to go through", fz / 20);
     let e = c20_hist();
     let n = match tier {
-        Tier::Quick => 1000,
+        Tier::Quick => 3000,
         Tier::Thorough => 20_000,
     };
     let o = drive(&e, "C20", tier, n, seed);
